@@ -376,3 +376,23 @@ def classify(case):
             kinds.add("date" if nm in pc.DATE else "mdc" if nm in pc.MDC else
                       "group" if any(nm in g for g in pc.GROUPS) else "leaf")
     return "+".join(sorted(kinds)) or "text-only"
+
+
+def extra_checks(ctx, cases, impl_lines, model_lines):
+    """pattern encoders DECLARED IN CONFIGURATION FILES (C14's renderings: the pattern text passes through the
+    YAML / JSON / TOML front-end and PatternEncoderDeserializer): what is written must be what the same pattern
+    given to PatternEncoder::new writes (C14 compares with the programmatic configuration)"""
+    from gen import xcheck
+
+    def has_pattern(c):
+        try:
+            from gen import c14
+            if c[5] != "render":
+                return False
+            doc = c14.dec_tree(c[0])
+            apps = doc.get("appenders") or {}
+            return any(isinstance(a, dict) and isinstance(a.get("encoder"), dict) and "\\\\" in str(a["encoder"].get("pattern", ""))
+                       for a in apps.values())
+        except Exception:
+            return False
+    return xcheck.borrow(ctx, "C14", "a pattern encoder declared in a configuration file", has_pattern, n=30)
